@@ -114,6 +114,42 @@ def spec_tokens(line, out):
     return None
 
 
+def iov_stage(ctx, rt):
+    """the pieces of every emit call (Props/C12_Iov.lean): each create_* function of the runtime called once after `fill` bytes at the front
+    (every residue mod 8), recorded by the wrapper emitter, vs the model's piece lists; spec: non-empty pieces, 1..IOV_COUNT_MAX, sum = length"""
+    r = random.Random(ctx.seed * 53 + 12)
+    hb = build_harness(ctx, "h_build", [os.path.join(VERIF, "harness/h_build.c")], rt)
+    lines = []
+    n = 40 if ctx.quick() else 600
+    for _ in range(n):
+        fill = r.choice([0, 1, 2, 3, 4, 5, 6, 7, 8, 9, 15, 16, 17, 31]); cl = r.randrange(2)
+        hexd = lambda k: bytes(r.randrange(256) for _ in range(k)).hex() or "-"
+        lines.append("iov %d %d str %s" % (fill, cl, hexd(r.choice([0, 1, 2, 3, 4, 5, 7, 8, 20]))))
+        esz = r.choice([1, 2, 4, 8, 3, 12]); al = r.choice([1, 2, 4, 8, 16, 64])
+        lines.append("iov %d %d vec %d %d %s" % (fill, cl, esz, al, hexd(esz * r.choice([0, 1, 2, 5]))))
+        lines.append("iov %d %d ovec %d" % (fill or 4, cl, r.choice([0, 1, 2, 3, 7])))      # the elements refer to the filler object: null elements are not allowed here
+        lines.append("iov %d %d struct %d %s" % (fill, cl, r.choice([1, 2, 4, 8, 16]), hexd(r.choice([1, 2, 3, 4, 6, 8, 12, 24]))))
+        ne = r.choice([0, 1, 2, 3, 5]); vt = [4 + 2 * ne, 4 + r.randrange(0, 40, 2)] + [r.choice([0, 4, 8]) for _ in range(ne)]
+        lines.append("iov %d %d vt %s" % (fill, cl, b"".join(x.to_bytes(2, "little") for x in vt).hex()))
+    rc, c_out, err = run_parallel(hb, lines, 8)
+    rc, m_out, _ = run_parallel(FMODEL, lines, 8)
+    spec, corr = [], []
+    imax = 8
+    m = re.search(r"def iovCountMax : Nat := (\d+)", open(os.path.join(LEAN, "FlatccModel", "Generated", "Consts.lean")).read())
+    if m: imax = int(m.group(1))
+    for l, co, mo in zip(lines, c_out, m_out):
+        t = co.split(" ")
+        if t[0] != "ok" or len(t) < 2 or t[1] == "-":
+            spec.append((l, "create call failed or made no emit call: " + co[:100])); continue
+        for call in t[1].split(","):
+            mm = re.match(r"([FB])(\d+):([\d+]*)$", call)
+            ps = [int(x) for x in mm.group(3).split("+")] if mm and mm.group(3) else []
+            if not mm or not (1 <= len(ps) <= imax) or any(p <= 0 for p in ps) or sum(ps) != int(mm.group(2)):
+                spec.append((l, "emit call `%s`: pieces must be non-empty, between 1 and %d, and sum to the stated length" % (call, imax)))
+        if co != mo: corr.append((l, co, mo))
+    return {"iov_unit_calls": len(lines)}, spec, corr
+
+
 def run(ctx):
     ths = proof_stage(ctx)
     if ths is None:
@@ -149,6 +185,13 @@ def run(ctx):
         i = min(idx, key=lambda k: len(lines[k]))
         violation(ctx, "corr_%d.json" % ctx.seed, {"kind": "correspondence-broken", "theorems_no_longer_tied": [t["name"] for t in ths],
                                                      "op": lines[i][:5000], "c_output": a[i][:3000], "model_output": b[i][:3000], "count": len(idx)}, no_failing_input=True)
+    iov_stats, iov_spec, iov_corr = iov_stage(ctx, rt)
+    if iov_spec:
+        violation(ctx, "iov_spec_%d.json" % ctx.seed, {"kind": "property-fails-on-implementation", "op": iov_spec[0][0], "why": iov_spec[0][1], "count": len(iov_spec)})
+    elif iov_corr:
+        violation(ctx, "iov_corr_%d.json" % ctx.seed, {"kind": "correspondence-broken", "theorems_no_longer_tied": [t["name"] for t in ths if "iov" in t["name"]],
+                                                         "op": iov_corr[0][0], "c_output": iov_corr[0][1], "model_output": iov_corr[0][2], "count": len(iov_corr)}, no_failing_input=True)
+    ctx.cov.update(iov_stats)
     nops = sum(l.count(",") + 1 for l in lines)
     ctx.cov.update({"evaluations": nops, "distinct_nontrivial": len(set(lines)),
                     "rule": "default emitter: front/back split at page-boundary residues (every 7th residue quick, every residue thorough) for totals up to 4 pages, "
@@ -158,6 +201,7 @@ def run(ctx):
                     "histories": len(lines), "recording_emitter": summ[0] if summ else None,
                     "traces_validated_against_impl": len(lines), "correspondence_disagreements": len(idx), "spec_oracle_failures": len(spec_fail) + len(rec_fail)})
     ctx.samples = [{"op": lines[i][:200], "c": a[i][:300], "model": b[i][:300]} for i in (0, len(lines) // 2, len(lines) - 1)]
-    ctx.notes = ["contiguity of the builder's emit calls (first half of the property) is checked by the recording emitter on builder histories, not proved (no builder model yet)",
+    ctx.notes = ["contiguity of the builder's emit calls: Props/C12_Builder.lean (every history of builder operations tiles one range); pieces per call: Props/C12_Iov.lean; "
+                 "both tied by the recorded emit calls / piece lengths of the real builder",
                  "the emitter model represents page contents, not byte positions inside a page; finalize / aligned finalize go through copy_buffer in builder.c and are exercised by the recording run"]
     finish(ctx, ths)
